@@ -67,6 +67,18 @@ func (t tcMonoid[T]) run(out *Out, id string, vals []*AV, seqs [][]*AV) {
 			}
 		}
 	}
+	// persistence of operands and results: combining x again must not change an earlier result or x itself
+	for i := 0; i < n; i++ {
+		for j := 0; j < n && j < 3; j++ {
+			x := t.mk(vals[i])
+			xb := t.av(x).tla()
+			r1 := sg.Combine(x, t.mk(vals[j]))
+			b1 := t.av(r1).tla()
+			_ = sg.Combine(x, t.mk(vals[(j+1)%n]))
+			_ = sg.Combine(r1, t.mk(vals[(j+2)%n]))
+			out.Ev("Alias", "mx", id, "xbefore", xb, "xafter", t.av(x).tla(), "rbefore", b1, "rafter", t.av(r1).tla())
+		}
+	}
 	if t.m != nil {
 		le, re := make([]any, n), make([]any, n)
 		for i := range gv {
@@ -186,6 +198,14 @@ func init() {
 	tcmRegistry["mergeslice"] = tcMonoid[[]int]{mk: np(mk_slice_int_), av: av_slice_int_, m: monoid.MergeSlice[int]()}
 	tcmRegistry["mergegomap"] = tcMonoid[map[string]int]{mk: np(mk_gomap_int_), av: av_gomap_int_, m: monoid.MergeGoMap[string, int]()}
 	tcmRegistry["mergemap"] = tcMonoid[fp.Map[int, int]]{mk: np(mk_fpmap_int_), av: av_fpmap_int_, m: monoid.MergeMap[int, int]()}
+	collide := hash.New(hash.Number[int](), func(k int) uint32 { return uint32(k % 3) })
+	tcmRegistry["mergemap#collide"] = tcMonoid[fp.Map[int, int]]{mk: func(a *AV) fp.Map[int, int] {
+		r := immutable.Map[int, int](collide)
+		for i, kk := range a.Ks {
+			r = r.Updated(kk, mk_int(a.Vs[i], nil))
+		}
+		return r
+	}, av: av_fpmap_int_, m: monoid.MergeMap[int, int]()}
 	tcmRegistry["mergeset"] = tcMonoid[fp.Set[int]]{mk: mkSet, av: avSet, m: monoid.MergeSet[int]()}
 	tcmRegistry["ptr(sum)"] = tcMonoid[*int]{mk: np(mk_ptr_int_), av: av_ptr_int_, m: monoid.Ptr(lazy.Done(sum))}
 	tcmRegistry["ptr(string)"] = tcMonoid[*string]{mk: np(mk_ptr_str_), av: av_ptr_str_, m: monoid.Ptr(lazy.Done(str))}
